@@ -1,24 +1,33 @@
 import Fabio.Generated.C02
 /-!
-C02 — obligations over the facts regenerated from /repo on every run (`tools/factgen/c02.go`).
+C02 — OBLIGATIONS over the facts regenerated from /repo on every run (`tools/factgen/c02.go`).
 
-Each fact is an ordered EVENT list of an anchored function, built to pin meaning rather than spelling (see the
-header of `c02.go`): the AST is normalised (constants inlined, `switch` → `if` chain), calls into unexported
-same-package helpers are followed, an `if`/`for`/`range` appears only when a pinned call, a pinned store or a
-`return`/`continue`/`break` of the anchored function happens inside it, and variables are named by role
-(`p0` first parameter, `NewTable#0` first result of the call to `NewTable`, `recv(WatchServices#0)` received from
-the channel `WatchServices` returned, `copy(X)` assigned from the variable with role `X`, `rangeV` range value,
-`var:atomic.Value` the package-level cell, `decl:T`/`lit:T` declared without value / composite literal).
-`if(≠nil)` is a guard `x != nil`, `if(=nil:r)` a guard `r == nil`; returns list `nil`/`val` per result.
-An event list that no longer matches is a broken tie between the Lean model (`Model/C02.lean`) and the code.
+Round 3 split the twelve statements of this file in two (HOWTO, "Obligations versus change detectors"):
+
+* here: what the proof chain needs and NO stream can establish by running the code — the granularity and the
+  access sites of the atomic cell (the concurrency theorems quantify over schedules of exactly these micro-steps),
+  the writers of the cell anywhere in the repository (single-writer invariant of `Props/C02Compose.lean`), "the
+  decode target of a poll is not reachable by the next poll" (the table handed to `SetTable` is not written again
+  by the decoder while lookups read it), "no recover on the update path" (a contract read from the AST), and the
+  wiring of the lookup closures in `main.go` that no harness executes;
+* `Props/C02Pins.lean` (change detectors): the ordered event lists of `NewTable`, `NewTableCustom`, `Parse`,
+  `watchBackend`, the poll loop, and the panic-point guards — sequential, deterministic code whose input/output
+  behaviour the streams `c02.history`, `c02.custom`, `c02.nopanic` compare with the model on every run.
+
+Event lists are built to pin meaning rather than spelling (header of `c02.go`): normalised AST, helpers
+followed, variables named by role (`p0` first parameter, `var:atomic.Value` the package-level cell).
 -/
 namespace Fabio.Props.C02Facts
 open Fabio.Generated.C02
 
-/-- `Cell.setTable none = c` (`setTable_nil_ignored`): `SetTable` returns before the only `Store` on the cell
-when its parameter is nil, stores its parameter otherwise, and touches no other atomic / clears nothing. -/
-theorem setTable_returns_before_store_on_nil :
-    setTableEvents = ["if(=nil:p0){", "return", "}", "call:var:atomic.Value.Store(p0)"] := by decide
+/-- `Cell.setTable (some t)` is ONE micro-step and `Cell.setTable none` is none: the only effect of `SetTable` on
+shared state (`setTableSharedEffects`: its calls on the cell, of `sync/atomic`, `clear`, `delete`, and its stores to
+package-level variables) is one `Store` of its parameter on the cell — no second store (a flag published after the table:
+a lookup in between would combine the new table with the old flag), no `clear`/`delete` of the replaced table
+(a lookup that loaded it is still reading it) — and on a nil parameter it returns BEFORE that store. -/
+theorem setTable_is_one_store_after_nil_guard :
+    setTableSharedEffects = ["call:var:atomic.Value.Store(p0)"] ∧
+    setTableBeforeStore = ["if(=nil:p0){", "return", "}"] := by decide
 
 /-- `Cell.load` is ONE micro-step: the only call `GetTable` makes is one `Load` on the cell, then it returns. -/
 theorem getTable_is_one_load :
@@ -31,66 +40,30 @@ theorem cell_access_sites :
     cellVariables = 1 ∧ tableStoreSites = ["SetTable", "init"] ∧ tableLoadSites = ["GetTable"] ∧
     tableOtherUses = [] := by decide
 
-/-- `build : Text → Option T` has no third outcome: `NewTable` returns `nil, err` when `Parse` fails and on the
-FIRST failing command inside the loop over the definitions, and `table, nil` only after that loop and after
-sorting every host's routes (`no_partial_table`). -/
-theorem newTable_never_returns_partial_table :
-    newTableEvents = ["call:Parse(p0)", "if(≠nil){", "return nil,val", "}", "call:make(Table)", "range{", "if(≠nil){",
-      "return nil,val", "}", "}", "range{", "call:sort.Sort(rangeV)", "}", "return val,nil"] := by decide
+/-- **Single writer.** `route.SetTable` is called at two places of the whole repository (test and verif files
+excluded, import aliases resolved): package main (the `watchBackend` loop) and `registry/custom` (the poll loop),
+both on the goroutine of their loop — not from a `go` statement or a function literal, so installations of one
+loop never overlap or overtake each other; `watchBackend` contains one call, and that one is in the branch of the
+text backends (its branch for the custom backend only drains status strings): whichever backend is configured,
+ONE goroutine installs tables. This is the `OneWriter` hypothesis of `serving_table_is_last_good_config`. -/
+theorem single_writer :
+    setTableCallers = [".:sync", "registry/custom:sync"] ∧ watchBackendSetTableCalls = 1 ∧
+    watchBackendTextBranchSetTableCalls = 1 := by decide
 
-/-- same for `NewTableCustom`, which first refuses a nil definition list (`newTableCustom` rather than
-`newTableCustomOld`: repair of D27) -/
-theorem newTableCustom_never_returns_partial_table :
-    newTableCustomEvents = ["if(=nil:p0){", "return nil,val", "}", "call:make(Table)", "range{", "if(≠nil){",
-      "return nil,val", "}", "}", "range{", "call:sort.Sort(rangeV)", "}", "return val,nil"] := by decide
-
-/-- `Parse` returns `nil` with every error inside the scanner loop and reports the scanner's own error after it
-(repair of D29: an over-long line is an error of the whole text, so `build` fails and the previous table keeps
-serving). -/
-theorem parse_returns_scanner_error :
-    parseEvents = ["call:bufio.NewScanner(p0)", "for{", "call:NewScanner#0.Scan()", "if(≠nil){", "return nil,val", "}", "}",
-      "call:NewScanner#0.Err()", "if(≠nil){", "return nil,val", "}", "return val,nil"] := by decide
-
-/-- `WB.step`: the loop body resets the buffer and writes service text, "\n", manual text (what was received
-from the `WatchServices` / `WatchManual` channels); the candidate text is the buffer's `String()`; the loop
-skips when it equals the remembered text; `continue`s on a build error BEFORE `route.SetTable(table)`; remembers
-the candidate AFTER it — and nowhere else in the function; there is one `SetTable` call. -/
-theorem watchBackend_shape :
-    watchBackendEvents = ["for{", "call:new(bytes.Buffer).Reset()",
-      "call:new(bytes.Buffer).WriteString(recv(WatchServices#0))", "call:new(bytes.Buffer).WriteString(\"\\n\")",
-      "call:new(bytes.Buffer).WriteString(recv(WatchManual#0))", "set:String#0",
-      "if(String#0 == copy(String#0)){", "continue", "}", "call:route.ParseAliases(String#0)",
-      "call:registry.Default.Register(ParseAliases#0)", "call:route.NewTable(new(bytes.Buffer))", "if(≠nil){", "continue",
-      "}", "call:route.SetTable(NewTable#0)", "set:copy(String#0)", "}"] ∧
-    watchBackendLastTableAssignments = 1 ∧ watchBackendSetTableCalls = 1 := by decide
-
-/-- `customStep`: transport error, non-200 and decode error `continue` before `NewTableCustom`; its error is
-only reported, and `route.SetTable(table)` follows UNCONDITIONALLY (not inside any guard; with a nil table on
-error: relies on `setTable_returns_before_store_on_nil`); what is decoded is what is built. -/
-theorem customRoutes_shape :
-    customRoutesEvents = ["call:lit:http.Client.Do(NewRequest#0)", "if(≠nil){", "continue", "}",
-      "if(Do#0.StatusCode != 200){", "continue", "}", "call:NewDecoder#0.Decode(&decl:*[]route.RouteDef)", "if(≠nil){",
-      "continue", "}", "call:route.NewTableCustom(decl:*[]route.RouteDef)", "call:route.SetTable(NewTableCustom#0)"] := by
-  decide
-
-/-- `Poll.defs ds` carries the definitions of THIS document: the variable `Decode` fills is declared inside the
-poll loop, so nothing of the previous poll's document is left in it (repair of D32). -/
+/-- `Poll.defs ds` carries the definitions of THIS document and nothing the next poll can reach: the variable
+`Decode` fills is declared inside the poll loop (repair of D32). Otherwise the decoder of the next poll writes
+into the option maps and tag arrays of the targets of the ACTIVE table while lookups read them — the published
+table would not be immutable. -/
 theorem customRoutes_decodes_into_fresh_variable :
     customRoutesDecodeTargetFound = true ∧ customRoutesVarInLoop = true := by decide
 
 /-- The only `recover()` in `route/`, `main.go`, `registry/custom` sits in a function whose only method call is
 the third-party `Match` (repair of D33: gobwas/glob compiles patterns such as `foo{` whose `Match` panics), and
 every `Match` call of package `route` is inside it. Nothing else recovers: the model's "a panic on the update
-path ends the process" (`customRun`, `Outcome.panic`) is what happens, and no theorem relies on a recover. -/
+path ends the process" (`customRun`, `stepO`, `Outcome.panic`) is what happens, and no theorem relies on a
+recover. -/
 theorem no_recover_is_relied_upon :
     recoverSites = ["route:recover-around:Match"] ∧ globMatchCalls = 1 ∧ globMatchCallsGuarded = 1 := by decide
-
-/-- panic points closed by earlier repairs stay closed: both functions of package `route` that read
-`RouteDef.Weight` refuse NaN/±Inf with an error (D02); the function that compiles route patterns compiles two
-different ones — host and path (D03); nothing in package `route` calls `glob.MustCompile`. -/
-theorem panic_points_closed :
-    weightReaders = ["guarded", "guarded"] ∧ routeDefGlobCompileDistinctArgs = ["2"] ∧ mustCompileSites = [] := by
-  decide
 
 /-- the reader thread of the model is `[load; lookup on the snapshot]`: each of the three lookup closures of
 package main (HTTP `Lookup`, `lookupHostFn`, `lookupHostMatcher`) calls `route.GetTable()` exactly once per
